@@ -45,6 +45,9 @@ def frame_obs(chk, tag, res, fq, replay=None, allow_raise=True):
                 chk.add(Ob('C20.%s.frame.%s@%s' % (tag, e.data, e.where.split('.')[-1]), e.pc, ir.FALSE, kind='frame',
                            function=fq, free_ufs_ok=True, replay=replay,
                            clause='argument `%s` is not modified (store at %s)' % (e.data, e.where)))
+    if n_ok == 0:
+        # nothing was executed (every path met an unsupported construct, already listed as undecided): no verdict
+        return n_ok
     chk.add(Ob('C20.%s.frame.explored' % tag, [], ir.const(n_ok > 0), backends=('syntactic',), function=fq, kind='frame',
                clause='every path of the call was executed with owner-tagged arguments and no reachable store into them '
                       'was recorded (%d paths)' % n_ok))
@@ -62,7 +65,7 @@ def vine_frame_replay(env):
     X = pd.DataFrame(rs.normal(size=(60, 3)) @ rs.normal(size=(3, 3)), columns=['c', 'a', 'd'])
     for vt in ('center', 'direct', 'regular'):
         X0 = X.copy(deep=True)
-        u = np.array([[0.3, 0.5, 0.7]])
+        u = np.array([[0.0, 0.5, 1.0]])          # border values included: a clamp written in place would show
         u0 = u.copy()
         try:
             v = VineCopula(vt)
